@@ -34,6 +34,13 @@ def gen_cases(tier, seed):
     for i in range(36 if tier == 'quick' else 500):
         cases.append({'kind': 'socket', 'connections': rng.choice([1, 2, 3, 4]), 'requesters': rng.choice([1, 2, 4, 8]), 'per_requester': rng.choice([10, 25]),
                       'big': rng.choice([0, 1, 1, 2]), 'advid': rng.choice([None, 'lifo', 'random']), 'fuzz': rng.random() < 0.7, 'seed': rng.randrange(1 << 30)})
+    for c in cases:
+        if c.get('kind', 'socket') != 'pipe':
+            k = c['seed'] % 8
+            c['tcp'] = k in (1, 5)                    # the other transport: TCP on 127.0.0.1
+            c['stream_failures'] = k in (2, 5, 6)     # stream() over elements whose handler raises, return_exceptions=True
+            if k == 3:
+                c['server_backlog'], c['client_backlog'] = 2, 3   # tiny per-connection / client queues
     for i in range(8 if tier == 'quick' else 100):
         cases.append({'kind': 'pipe', 'steps': rng.choice([6, 20]), 'seed': rng.randrange(1 << 30)})
     # one side sends its last object and ends at once; the other side is slow to get to its first recv
@@ -68,8 +75,18 @@ def run_socket(case):
     obs = {'socket_cases': 1, 'requests': 0, 'failing_requests': 0, 'stream_items': 0, 'bytes_sent': 0, 'max_payload': 0, 'reordered_responses': 0}
     d = tempfile.mkdtemp(prefix='vf-c18-')
     path = os.path.join(d, 'sock')
-    srv = mm.Process(target=targets.c18_server, args=(path,))
+    tcp_port = None
+    if case.get('tcp'):
+        import socket as _socket
+
+        with _socket.socket() as sk:
+            sk.bind(('127.0.0.1', 0))
+            tcp_port = sk.getsockname()[1]
+    srv = mm.Process(target=targets.c18_server, args=(path, None, tcp_port, case.get('server_backlog')))
     srv.start()
+    conn_kw = dict(host='127.0.0.1', port=tcp_port) if tcp_port else dict(path=path)
+    if case.get('client_backlog'):
+        conn_kw['backlog'] = case['client_backlog']
     adv = SH.AdvId(case['advid'], case['seed']).install(MS) if case['advid'] else None
     fz = schedfuzz.SchedFuzz(seed=case['seed'], p=0.02) if case['fuzz'] else schedfuzz.NullFuzz()
     fz.add(MS.SocketClient._open_connections, MS.SocketClient.stream, MS.write_record, MS.read_record)
@@ -96,19 +113,25 @@ def run_socket(case):
         plans.append(reqs)
 
     def lifetime():
-        with MS.SocketClient(path=path, num_connections=case['connections'], connection_timeout=30) as client:
+        with MS.SocketClient(num_connections=case['connections'], connection_timeout=30, **conn_kw) as client:
             with fz:
                 def requester(c):
                     mine = plans[c]
                     if c % 4 == 3:
                         # stream: order must be preserved
-                        items = [(tag, lat, False, targets.make_payload(spec)) for tag, lat, fail, spec, _ab in mine]
+                        with_failures = case.get('stream_failures')
+                        items = [(tag, lat, (fail if with_failures else False), targets.make_payload(spec)) for tag, lat, fail, spec, _ab in mine]
                         k = 0
-                        for x, y in client.stream('/tagged', iter(items), return_x=True):
+                        for x, y in client.stream('/tagged', iter(items), return_x=True, **({'return_exceptions': True} if with_failures else {})):
                             with lock:
                                 obs['stream_items'] += 1
                                 want = (items[k][0], targets.digest(items[k][3]))
-                                if x[0] != items[k][0] or tuple(y[0]) != items[k][0] or tuple(y[1]) != want[1]:
+                                if items[k][2]:
+                                    # a failing stream element yields its own exception in its own place
+                                    obs['failing_stream_items'] = obs.get('failing_stream_items', 0) + 1
+                                    if x[0] != items[k][0] or type(y) is not targets.handler_exc_class(items[k][2]) or tuple(y.args) != (items[k][0],):
+                                        viol.append({'mech': 'socket/stream-order-or-content', 'msg': f'stream position {k}: failing input {items[k][0]} ({items[k][2]}) yielded x={x[0]} y={y!r}'[:300]})
+                                elif isinstance(y, BaseException) or x[0] != items[k][0] or tuple(y[0]) != items[k][0] or tuple(y[1]) != want[1]:
                                     viol.append({'mech': 'socket/stream-order-or-content', 'msg': f'stream position {k}: input {items[k][0]} yielded x={x[0]} y={y!r}'[:300]})
                             k += 1
                         with lock:
